@@ -48,6 +48,11 @@ def run(ck):
         loops = rn.loops()
         lp = [blk for h, blk in loops.items() if disp[0].bb in blk]
         ck.verdict(bool(lp) and any(any(l.bb in blk for l in loads) for blk in lp), "1", "T5-loop-exit", rn, "stop-examined-every-iteration", "the loop that dispatches also re-examines the stop flag on every iteration", "the dispatch loop of run() never re-examines the stop flag: stop() followed by wakeup() does not end run()", site=rn.where(disp[0].bb))
+        # a stop request left over from an earlier run (an error exit, a block_on that returned None) must not end this
+        # run: the flag is cleared on entry, i.e. a store of `false` dominates every load ("run() never returns Ok without
+        # a stop request" issued after it has begun)
+        resets = [c for c in atomics(rn, "stop", ("store",)) if len(c.args) > 1 and T.const_value(rn, c.args[1], 8) == 0]
+        ck.verdict(bool(resets) and all(any(rn.dominates(r_.bb, l.bb) for r_ in resets) for l in loads), "1", "T3-must-precede", rn, "stop-cleared-on-entry", "run() clears the stop flag before it first reads it", "run() reads the stop flag without having cleared it on entry: a stop request left over from an earlier run()/block_on() that ended otherwise (an error, a completed future) makes this run() return Ok at once, without any stop request of its own", site=rn.where(loads[0].bb))
         # the flag is read *after* the user code of an iteration: a stop() issued by a source callback, an idle or the
         # per-iteration closure must be seen before the next wait begins ("after finishing at most the iteration in
         # progress"). Every path from the end of a user-code site of the loop to the next dispatch passes a load.
